@@ -2,14 +2,18 @@
 # usage: tools/try_patch.sh <patch.diff> <ID> [more IDs...]   (env: TIER=quick|thorough)
 # Applies the patch to a scratch worktree of /repo HEAD (outside /repo and /verif), runs the checks
 # against it via VERIF_REPO, prints the verdicts, removes the worktree.
-PATCH="$1"; shift
+PATCH="$(readlink -f "$1")"; shift
 HERE="$(cd "$(dirname "$0")/.." && pwd)"
 WT="/tmp/vf_try_$$"
 git -C /repo worktree add --detach "$WT" HEAD >/dev/null 2>&1 || { echo "worktree failed"; exit 2; }
 trap 'git -C /repo worktree remove --force "$WT" >/dev/null 2>&1; rm -rf "$WT"' EXIT
+# a seeded change written against the pinned commit may collide with a later fix: commit; then the
+# hand-adapted equivalent patch_head.diff next to it is used
+ALT="$(dirname "$PATCH")/patch_head.diff"
+[ -f "$ALT" ] && [ "$(basename "$PATCH")" = "patch.diff" ] && PATCH="$ALT"
 if ! git -C "$WT" apply "$PATCH" 2>/dev/null; then
-  if ! git -C "$WT" apply --3way "$PATCH" >/dev/null 2>&1; then
-    if ! (cd "$WT" && patch -p1 --fuzz=3 -s < "$PATCH"); then echo "PATCH-DOES-NOT-APPLY $PATCH"; exit 3; fi
+  if ! git -C "$WT" apply --3way "$PATCH" >/dev/null 2>&1 || git -C "$WT" diff --name-only --diff-filter=U | grep -q .; then
+    echo "PATCH-DOES-NOT-APPLY $PATCH"; exit 3
   fi
 fi
 for ID in "$@"; do
